@@ -891,6 +891,25 @@ def gen_runner_case(rng, tier, profile="matching", **kw):
     return {"drive": "runner", "seed": rng.randrange(1 << 31), "config": cfg, "profile": profile}
 
 
+def gen_big_auction_case(rng):
+    """a call auction with several hundred participants: one placement-only step in which 220-300 agents each leave one
+    one-lot order, all of them crossing (buys at or above, sells at or below the time-0 price, over 40 price levels);
+    the first round of the next session matches more than a hundred pairs between more than two hundred parties."""
+    n = rng.choice([220, 260, 300])
+    tick = rng.choice([1.0, 0.5])
+    cfg = {"simulation": {"markets": ["S0"], "agents": ["CROWD"], "sessions": [
+        {"sessionName": 0, "iterationSteps": 1, "withOrderPlacement": True, "withOrderExecution": False, "withPrint": False,
+         "maxNormalOrders": n},
+        {"sessionName": 1, "iterationSteps": rng.choice([3, 5]), "withOrderPlacement": True, "withOrderExecution": True,
+         "withPrint": False, "maxNormalOrders": 3}]},
+        "S0": {"class": "Market", "tickSize": tick, "marketPrice": 300 * tick, "outstandingShares": 1000},
+        "CROWD": {"class": "ScriptAgent", "numAgents": n, "markets": ["S0"], "cashAmount": 100000, "assetVolume": 50,
+                  "program": {"p_act": 1.0, "max_batch": 1, "actions": [
+                      [1, {"a": "limit", "side": "buy", "ref": "p0", "off": [0, 40], "vol": [1, 1], "ttl": [None]}],
+                      [1, {"a": "limit", "side": "sell", "ref": "p0", "off": [-40, 0], "vol": [1, 1], "ttl": [None]}]]}}}
+    return {"drive": "runner", "seed": rng.randrange(1 << 31), "config": cfg, "profile": "accounting", "big_auction": True}
+
+
 def gen_accounting_case(rng, tier, hostile=None, hft=None, hostile_hft=False, penny=None, auction=False):
     """workload for the life-cycle monitors: several markets, normal and HFT scripted agents that cancel
     (resting, partly filled, filled, expired, already cancelled orders), quote both sides (self-trades),
